@@ -295,6 +295,18 @@ struct missing_handle
 {
 };
 
+// generator tokens for (probe) names: "@long<n>" = n characters, "@utf8", "@nul" = embedded NUL byte
+std::string expand_name(const std::string& s)
+{
+    if (s.rfind("@long", 0) == 0)
+        return std::string(std::stoul(s.substr(5)), 'n');
+    if (s == "@utf8")
+        return "Bj\xc3\xb6rk \xe6\x97\xa5\xe6\x9c\xac";
+    if (s == "@nul")
+        return std::string("a\0b", 3);
+    return s;
+}
+
 dj::crate& C(world& w, const json& op, const char* key)
 {
     int64_t i = op.at(key).get<int64_t>();
@@ -422,13 +434,16 @@ void exec_op(world& w, const json& op)
     json rec;
     rec["e"] = "call";
     rec["op"] = name;
+    const bool probe = op.value("probe", false);
+    if (probe)
+        rec["probe"] = true;   // an unmodelled call (stale handle, extreme argument): judged for safety only (C15)
     int64_t newid = 0;
     std::function<void()> f;
     try
     {
         if (name == "create_root")
         {
-            auto n = op.at("n").get<std::string>();
+            auto n = expand_name(op.at("n").get<std::string>());
             rec["n"] = n;
             f = [&w, n, &newid] {
                 auto c = w.db->create_root_crate(n);
@@ -438,7 +453,7 @@ void exec_op(world& w, const json& op)
         }
         else if (name == "create_root_after")
         {
-            auto n = op.at("n").get<std::string>();
+            auto n = expand_name(op.at("n").get<std::string>());
             auto& a = C(w, op, "after");
             rec["n"] = n;
             rec["after"] = a.id();
@@ -450,7 +465,7 @@ void exec_op(world& w, const json& op)
         }
         else if (name == "create_sub")
         {
-            auto n = op.at("n").get<std::string>();
+            auto n = expand_name(op.at("n").get<std::string>());
             auto& p = C(w, op, "c");
             rec["n"] = n;
             rec["c"] = p.id();
@@ -462,7 +477,7 @@ void exec_op(world& w, const json& op)
         }
         else if (name == "create_sub_after")
         {
-            auto n = op.at("n").get<std::string>();
+            auto n = expand_name(op.at("n").get<std::string>());
             auto& p = C(w, op, "c");
             auto& a = C(w, op, "after");
             rec["n"] = n;
@@ -476,7 +491,7 @@ void exec_op(world& w, const json& op)
         }
         else if (name == "set_name")
         {
-            auto n = op.at("n").get<std::string>();
+            auto n = expand_name(op.at("n").get<std::string>());
             auto& c = C(w, op, "c");
             rec["n"] = n;
             rec["c"] = c.id();
@@ -552,6 +567,39 @@ void exec_op(world& w, const json& op)
             rec["c"] = c.id();
             f = [&c] { c.clear_tracks(); };
         }
+        else if (name == "add_track_id")
+        {
+            auto& c = C(w, op, "c");
+            int64_t id = op.at("id").get<int64_t>();
+            rec["c"] = c.id();
+            rec["id"] = id;
+            f = [&c, id] { c.add_track(id); };
+        }
+        else if (name == "probe_crate")
+        {
+            // every observer of one handle, valid or not, each guarded on its own
+            auto& c = C(w, op, "c");
+            rec["c"] = c.id();
+            f = [&w, &c, &rec] {
+                json p;
+                auto g = [&](const char* what, std::function<json()> fn) {
+                    json v;
+                    auto oc = vh::guarded(what, [&] { v = fn(); });
+                    p[what] = oc.ok ? json("ok") : json({{"throw", oc.ex}, {"std", oc.std_exc}});
+                };
+                g("is_valid", [&] { return json(c.is_valid()); });
+                g("id", [&] { return json(c.id()); });
+                g("name", [&] { return json(c.name()); });
+                g("parent", [&] { auto x = c.parent(); return json(x ? x->id() : 0); });
+                g("children", [&] { return ids_of(c.children()); });
+                g("descendants", [&] { return ids_of(c.descendants()); });
+                g("tracks", [&] { return tids_of(c.tracks()); });
+                g("sub_crate_by_name", [&] { auto x = c.sub_crate_by_name("a"); return json(x ? x->id() : 0); });
+                g("db", [&] { return json(c.db().uuid()); });
+                g("copy", [&] { dj::crate d{c}; d = c; return json(d.id()); });
+                rec["probes"] = p;
+            };
+        }
         else if (name == "reopen")
         {
             rec["e"] = "reopen";
@@ -605,6 +653,8 @@ void exec_op(world& w, const json& op)
         r["new"] = newid;
         r["ns"] = shim::n_prepared();
         r["nw"] = shim::n_writes();
+        if (rec.contains("probes"))
+            r["probes"] = rec["probes"];
         if (k)
         {
             r["fault"] = {{"k", k}, {"fired", fired}};
@@ -627,6 +677,8 @@ void exec_op(world& w, const json& op)
             w.th.resize(nth);
         }
         observation_phase(w, r);
+        if (probe && w.dead && r.contains("obs_throw") && r["obs_throw"].value("std", false))
+            w.dead = false;   // after an unmodelled call the observation itself may throw; only a crash ends the run
         bool last_attempt = !(w.sweep && fired && k < 64);
         if (last_attempt && op.contains("exp") && op["exp"].get<std::string>() != r["out"].get<std::string>() && !fired)
         {
